@@ -48,6 +48,9 @@ Faults == {"none",
            "b2_bad_direction", "b2_I_short", "b2_I_partial_obsolescence", "b2_I_trailing", "b2_letter_in_type",
            "b2_O_short", "b2_O_trailing", "b2_missing",
            "b3_unclosed", "b4_unterminated",
+           \* structured block-3 values of the wrong shape: code word followed by something other than "/text", a code
+           \* word cut short, a date-time cut short -- rejected, not read in part
+           "b3_433_no_slash", "b3_165_short", "b3_423_short",
            "val_dash_brace_midline", "val_dashline_in_narrative", "mur_with_colon_digit"}
 (* faults after which the documented format no longer admits the message *)
 Rejecting == Faults \ {"none", "val_dashline_in_narrative", "mur_with_colon_digit", "val_dash_brace_midline"}
@@ -74,10 +77,14 @@ Init ==
   /\ tagval \in TagVals
   /\ (tagval # "long") => (fault = "none" /\ addr = "xxx" /\ b3 \cap Structured # {} /\ b5 = {} /\ b2 \in {"I_P", "O_P"})
   /\ (addr = "branch") => (fault = "none" /\ Cardinality(b3) <= 1 /\ Cardinality(b5) <= 1)
-  /\ fault # "none" => (b3 \in {{}, {"108"}} /\ b5 \in {{}, {"CHK"}})
+  /\ fault # "none" => (b3 \in {{}, {"108"}, {"433"}, {"165"}, {"423"}} /\ b5 \in {{}, {"CHK"}})
+  /\ (b3 \in {{"433"}, {"165"}, {"423"}} /\ fault # "none") => fault \in {"b3_433_no_slash", "b3_165_short", "b3_423_short"}
   /\ (fault \in {"b2_I_short", "b2_I_partial_obsolescence", "b2_I_trailing"}) => b2 \in {"I_P", "I_PM", "I_PMOOO"}
   /\ (fault \in {"b2_O_short", "b2_O_trailing"}) => b2 \in {"O_P", "O"}
   /\ (fault = "b3_unclosed" \/ fault = "mur_with_colon_digit") => b3 = {"108"}
+  /\ (fault = "b3_433_no_slash") => b3 = {"433"}
+  /\ (fault = "b3_165_short") => b3 = {"165"}
+  /\ (fault = "b3_423_short") => b3 = {"423"}
 Next == UNCHANGED vars
 Spec == Init /\ [][Next]_vars
 
